@@ -24,6 +24,8 @@ type Srv struct {
 	Sequential bool
 	Timeout    time.Duration
 	Wedged     bool // a call panicked or never returned
+	wtmax      int
+	maxfs      int
 }
 
 // Start runs MakeNfs on d (formats an empty disk, recovers otherwise).
@@ -183,7 +185,31 @@ const dumpFullLimit = 4 << 20 // files up to this size are read completely
 const dumpWin = 64 << 10
 
 // DumpAPI walks the tree from the root with READDIRPLUS/LOOKUP/GETATTR/READ/READLINK.
-func DumpAPI(api API, who string) (d *Dump) {
+// Extents remembers, per handle, the byte ranges the driver wrote (from its own
+// calls; not an oracle). Dumps of files too large to read completely read these
+// ranges, so that the presence or absence of each write is observed.
+type Extents map[string][][2]int
+
+func (x Extents) Add(fh string, off, n int) {
+	if n <= 0 {
+		return
+	}
+	l := x[fh]
+	for _, e := range l {
+		if e[0] <= off && off+n <= e[0]+e[1] {
+			return
+		}
+	}
+	l = append(l, [2]int{off, n})
+	if len(l) > 48 {
+		l = l[len(l)-48:]
+	}
+	x[fh] = l
+}
+
+func DumpAPI(api API, who string) (d *Dump) { return DumpAPIx(api, who, nil) }
+
+func DumpAPIx(api API, who string, hint Extents) (d *Dump) {
 	d = &Dump{Ev: "dump", Who: who, OK: true, Objs: []DObj{}}
 	defer func() {
 		if r := recover(); r != nil {
@@ -244,6 +270,19 @@ func DumpAPI(api API, who string) (d *Dump) {
 			} else {
 				read(0, dumpWin)
 				read(g.RSize-dumpWin, dumpWin)
+				for _, e := range hint[fh] {
+					off, n := e[0], e[1]
+					if n > 2*dumpWin {
+						n = 2 * dumpWin
+					}
+					if off >= g.RSize {
+						continue
+					}
+					if off+n > g.RSize {
+						n = g.RSize - off
+					}
+					read(off, n)
+				}
 			}
 		case 5: // LNK
 			r := NewCall("READLINK")
